@@ -38,13 +38,13 @@ def malformed(rng, quick):
                 if not quick or rng.random() < 0.35:
                     one(base, ["x%d:%s" % (k, v)])
     # arbitrary byte strings up to and beyond the 1024-byte receive size
-    for ln in ([0, 1, 2, 47, 48, 49, 52, 64, 68, 76, 1023, 1024, 1025, 1500] + [rng.randrange(0, 1100) for _ in range(60 if quick else 1500)]):
+    for ln in ([0, 1, 2, 47, 48, 49, 52, 64, 68, 76, 1023, 1024, 1025, 1500] + [rng.randrange(0, 1100) for _ in range(60 if quick else 800)]):
         b = bytearray(rng.randrange(256) for _ in range(ln))
         if ln and rng.random() < 0.8:
             b[0] = (b[0] & 0xC0) | (rng.choice([3, 4, 5]) << 3) | rng.choice([3, 3, 3, 4, 1])
         one("raw:" + bytes(b).hex() if ln else "raw:-", [])
     # grammar-built plain packets with assorted extension fields and lies
-    for _ in range(300 if quick else 6000):
+    for _ in range(300 if quick else 2500):
         one("raw:" + P.raw_packet(rng, mode=rng.choice([3, 3, 3, 4, 0, 7])).hex(), P.gen_mutations(rng, 120) if rng.random() < 0.4 else [],
             buf=rng.choice(["=", "=", 1024, 0, 4, 48]))
     return res
@@ -76,7 +76,7 @@ def main():
     scenarios = malformed(rng, quick)
     env = environment(rng, quick)
     scenarios += env
-    for _ in range(400 if quick else 8000):
+    for _ in range(400 if quick else 3000):
         cfg = P.gen_cfg(rng)
         scenarios.append({"cfg": cfg, "ops": [P.gen_op(rng) for _ in range(rng.choice([1, 2, 5]))]})
     rp = P.replay_tokens()
